@@ -135,7 +135,7 @@ def main():
         done = {i: o for i, o in done.items() if o not in redo}
     # ast String()/ArgsString() only serve debugging output and the parser's own tests
     points = [p for p in points if not (p["file"].startswith("ast/") and p["func"].split(".")[-1] in ("String", "ArgsString"))]
-    todo = [p for p in points if p["id"] not in done]
+    todo = [p for p in points if p["key"] not in done]
     if a.ids:
         want = set(int(x) for x in a.ids.split(","))
         todo = [p for p in points if p["id"] in want]
